@@ -19,7 +19,7 @@ The three target statements, as the property demands them:
 What is proved:
 
 * `C10_counterexample_interrupting` — FALSE for every value of the facts (D7): the activity's cancel never stops a
-  request in flight; `normal_flow_unstoppable`, `answered_then_normal` say so for every state and schedule.
+  request in flight; `normal_flow_unstoppable`, `answered_then_normal` say so for every reachable state and schedule.
   `interrupting_partial` keeps what is true: the exception flow continues exactly once.
 * `C10_counterexample_second_event` — FALSE for every value of the facts: the listener's flow moves on and the catch
   event is never re-armed, so only the FIRST event continues the exception flow. `non_interrupting_partial`: at
@@ -29,10 +29,12 @@ What is proved:
   (`inert_no_reaction` / `C10_counterexample_ungated`); no wait-group contribution iff the listener flows do not
   share the instance wait group (`inert_wg_unshared` / `C10_counterexample_armed_listener`, D8);
   `inert_partial`: with the shared wait group the contribution is zero exactly when every listener has fired.
-* `C10_counterexample_cancel_before_request` — for every value of the facts: an interrupting event that arrives
-  between the harness's `active := 1` and the activity's first message makes the activity's run loop exit before it
-  ever handled that message: the host is never executed and its token never leaves. `host_requested_partial` is the
-  exact complement (at quiescence the host is unreached, waiting or done unless a cancel was accepted first).
+* `C10_counterexample_cancel_before_request` / `host_always_requested` — a dichotomy in the order of the harness's
+  two activation statements (fact `early`) and the gate: with `active := 1` stored BEFORE `activity.NextAction` (the
+  code today) an interrupting event that arrives between the two makes the activity's run loop exit before it ever
+  handled its first message: the host is never executed and its token never leaves; with the other order (and the
+  gate) the host is requested on every schedule. `host_requested_partial` is the exact excluding hypothesis for any
+  facts (at quiescence the host is unreached, waiting or done unless a cancel was accepted first).
 * `exception_progress` / `C10_counterexample_no_once` — the `cancellation` once is what keeps a second interrupting
   listener from waiting forever for a verdict of an activity whose run loop has exited.
 -/
